@@ -51,7 +51,9 @@ static std::string canonical(const std::string& bytes, const WriteMap& wm) {
 		out.append(bytes, pos, o - pos);
 		uint32_t idx;
 		memcpy(&idx, &bytes[o], 4);
-		out += idx == 0xFFFFFFFFu ? std::string("<none>") : idx < p.strings.size() ? "<" + p.strings[idx] + ">" : "<bad:" + std::to_string(idx) + ">";
+		// "no string" (index -1) and an index that denotes the empty string are the same content: the API reports "" for both,
+		// and which of the two a save writes depends on the order in which the table happens to be rebuilt
+		out += idx == 0xFFFFFFFFu ? std::string("<>") : idx < p.strings.size() ? "<" + p.strings[idx] + ">" : "<bad:" + std::to_string(idx) + ">";
 		pos = o + 4;
 	}
 	if (pos < bytes.size()) out.append(bytes, pos, std::string::npos);
@@ -173,6 +175,7 @@ static ResaveOut resaveHistory(const json& plan, Ctx& ctx, bool withFault, bool*
 		SaveOut so = saveNif(*nif, sp);
 		if (withFault && k == 0 && so.streamFailed) ctx.probe("write_failure_hit");
 		out.saves.push_back(so.bytes);
+		if (const char* dd = getenv("NIFSIM_DUMP")) { std::string fn = std::string(dd) + "/S" + std::to_string(k + 1) + (withFault ? "f" : "") + ".nif"; FILE* f = fopen(fn.c_str(), "wb"); if (f) { fwrite(so.bytes.data(), 1, so.bytes.size(), f); fclose(f); } }
 		out.maps.push_back(std::move(wm));
 		setStage(("Q" + std::to_string(k + 1)).c_str());
 		// extra getters between saves: several of them fill caches
@@ -206,6 +209,7 @@ void profile_resave(const json& plan, Ctx& ctx) {
 			if (clean.saves[k] == clean.saves[0]) continue;
 			std::string ca = canonical(clean.saves[0], clean.maps[0]), cb = canonical(clean.saves[k], clean.maps[k]);
 			if (ca == cb) { ctx.probe("string_renumbering_tolerated"); continue; }
+			if (const char* dd = getenv("NIFSIM_DUMP")) { FILE* f = fopen((std::string(dd) + "/canonA.txt").c_str(), "wb"); fwrite(ca.data(), 1, ca.size(), f); fclose(f); f = fopen((std::string(dd) + "/canonB.txt").c_str(), "wb"); fwrite(cb.data(), 1, cb.size(), f); fclose(f); fprintf(stderr, "strs A=%zu B=%zu\n", clean.maps[0].strs.size(), clean.maps[k].strs.size()); }
 			std::string d;
 			std::string w = diffWhere(clean.saves[0], clean.saves[k], &d);
 			ctx.viol(std::string(raw ? "raw" : "default") + ":save" + std::to_string(k + 1) + "-differs:" + w, "save #" + std::to_string(k + 1) + " of the same live model differs from save #1 (" + d + ")");
